@@ -43,13 +43,13 @@ func (ctx Ctx) mapType(e *ast.MapType) coq.MapType {
 }
 
 func (ctx Ctx) selectorExprType(e *ast.SelectorExpr) coq.Expr {
-	if isIdent(e.X, "filesys") && isIdent(e.Sel, "File") {
+	if ctx.isPkg(e.X, "filesys") && isIdent(e.Sel, "File") {
 		return coq.TypeIdent("fileT")
 	}
-	if isIdent(e.X, "disk") && isIdent(e.Sel, "Block") {
+	if ctx.isPkg(e.X, "disk") && isIdent(e.Sel, "Block") {
 		return coq.TypeIdent("disk.blockT")
 	}
-	if isIdent(e.X, "sync") &&
+	if ctx.isPkg(e.X, "sync") &&
 		(isIdent(e.Sel, "Cond") || isIdent(e.Sel, "Mutex")) {
 		ctx.unsupported(e, "%s without pointer indirection", ctx.printGo(e))
 	}
@@ -97,10 +97,10 @@ func (ctx Ctx) coqTypeOfType(n ast.Node, t types.Type) coq.Type {
 		if t.Obj().Pkg() == nil {
 			ctx.unsupported(n, "unexpected built-in type %v", t.Obj())
 		}
-		if t.Obj().Pkg().Name() == "filesys" && t.Obj().Name() == "File" {
+		if isNamedIn(t, "filesys", "File") {
 			return coq.TypeIdent("fileT")
 		}
-		if t.Obj().Pkg().Name() == "disk" && t.Obj().Name() == "Disk" {
+		if isDisk(t) {
 			return coq.TypeIdent("disk.Disk")
 		}
 		ctx.checkNotSyncValue(n, t)
@@ -219,57 +219,48 @@ func (ctx Ctx) coqType(e ast.Expr) coq.Type {
 	return coq.TypeIdent("<type>")
 }
 
+// isNamedIn reports whether t is the type name declared by the special package
+// pkg (see specialPackages); a user package of the same name does not count
+func isNamedIn(t types.Type, pkg string, name string) bool {
+	if t, ok := t.(*types.Named); ok {
+		obj := t.Obj()
+		return obj.Pkg() != nil && specialPackages[obj.Pkg().Path()] == pkg &&
+			obj.Name() == name
+	}
+	return false
+}
+
 func isLockRef(t types.Type) bool {
 	if t, ok := t.(*types.Pointer); ok {
-		if t, ok := t.Elem().(*types.Named); ok {
-			name := t.Obj()
-			return name.Pkg().Name() == "sync" &&
-				name.Name() == "Mutex"
-		}
+		return isNamedIn(t.Elem(), "sync", "Mutex")
 	}
 	return false
 }
 
 func isCFMutexRef(t types.Type) bool {
 	if t, ok := t.(*types.Pointer); ok {
-		if t, ok := t.Elem().(*types.Named); ok {
-			name := t.Obj()
-			return name.Pkg().Name() == "cfmutex" &&
-				name.Name() == "CFMutex"
-		}
+		return isNamedIn(t.Elem(), "cfmutex", "CFMutex")
 	}
 	return false
 }
 
 func isCondVar(t types.Type) bool {
 	if t, ok := t.(*types.Pointer); ok {
-		if t, ok := t.Elem().(*types.Named); ok {
-			name := t.Obj()
-			return name.Pkg().Name() == "sync" &&
-				name.Name() == "Cond"
-		}
+		return isNamedIn(t.Elem(), "sync", "Cond")
 	}
 	return false
 }
 
 func isWaitGroup(t types.Type) bool {
 	if t, ok := t.(*types.Pointer); ok {
-		if t, ok := t.Elem().(*types.Named); ok {
-			name := t.Obj()
-			return name.Pkg().Name() == "sync" &&
-				name.Name() == "WaitGroup"
-		}
+		return isNamedIn(t.Elem(), "sync", "WaitGroup")
 	}
 	return false
 }
 
 func isProphId(t types.Type) bool {
 	if t, ok := t.(*types.Pointer); ok {
-		if t, ok := t.Elem().(*types.Named); ok {
-			name := t.Obj()
-			return (name.Pkg().Name() == "machine" || name.Pkg().Name() == "primitive") &&
-				name.Name() == "prophId"
-		}
+		return isNamedIn(t.Elem(), "machine", "prophId")
 	}
 	return false
 }
